@@ -17,8 +17,8 @@ def driver():
     return DRV
 
 
-def gen(chk, module, name, consts, invariants, *, emit="Emit", workers=None, timeout=1200, need=("Grow",),
-        dedupe=True, coverage=True, constraint=None):
+def gen(chk, module, name, consts, invariants, *, emit="Emit", workers=None, timeout=1200, need=(),
+        dedupe=True, coverage=False, constraint=None):
     """Run TLC on specs/<module>.tla: decide `invariants`, collect the records printed by `emit`."""
     cfg = vkit.write_cfg(name, consts, invariants=list(invariants) + ([emit] if emit else []), constraint=constraint)
     recs, seen = [], set()
@@ -35,7 +35,7 @@ def gen(chk, module, name, consts, invariants, *, emit="Emit", workers=None, tim
     chk.add_tlc(name, res)
     if coverage and need:
         chk.check_coverage(res, list(need), name)
-    if emit and not recs:
+    if emit is not None and not recs:
         raise vkit.InfraError("generator %s printed no records" % name)
     return recs, res
 
@@ -65,7 +65,8 @@ def compare(chk, label, cases, expected, outs, *, key_of=None, limit=8, nontrivi
         if o is None:
             msg = "no driver output"
         elif isinstance(o, dict) and "crash" in o:
-            msg = "driver crashed (sanitizer report or abort): " + o["crash"][-1500:]
+            summ = [l for l in o["crash"].split("\n") if l.startswith("SUMMARY: ")]
+            msg = "driver crashed (sanitizer report or abort): %s ... %s" % (" ".join(summ), o["crash"][-1200:])
         else:
             msg = vkit.deep_diff(e, o, "")
         if msg:
@@ -192,3 +193,46 @@ def uri_known(case, msg):
     if case.get("_tag") in JOIN_FAMILY and ".jn" in msg:
         return KEY_JOIN
     return None
+
+
+# ------------------------------------------------------------------ C42
+KEY_TAG_OVERREAD = "evtag-decode-tag-reads-sixth-byte"
+
+
+def tag_rt_case(r):
+    return {"op": "tagrt", "items": r["items"]}
+
+
+def tag_rt_expected(r):
+    return {"wire": r["wire"], "steps": r["steps"], "splitdiff": 0}
+
+
+def tag_dec_case(r):
+    return {"op": "tagdec", "b": r["b"], "_tag": "overread" if r.get("overread") else ""}
+
+
+def tag_dec_expected(r):
+    e = {k: v for k, v in r.items() if k not in ("b", "overread")}
+    if e.get("tot") == -1:
+        e["tot"] = {"_any": True}      # fails, or a length >= 2^24 whose sum the model does not compute
+    return {"r": e, "splitdiff": 0}
+
+
+def tag_known(case, msg):
+    if case.get("_tag") == "overread" and "heap-buffer-overflow" in msg and "in decode_tag_internal" in msg:
+        return KEY_TAG_OVERREAD
+    return None
+
+
+# ------------------------------------------------------------------ C41
+def _sign_exp(v):
+    return {"_oneof": [-1, 1]} if v == 2 else v
+
+
+def str_case(r):
+    return {"op": "str", "a": r["a"], "b": r["b"]}
+
+
+def str_expected(r):
+    return {"cmp": _sign_exp(r["cmp"]), "ncmp": [_sign_exp(v) for v in r["ncmp"]], "str": r["str"],
+            "rtrim": r["rtrim"], "snp": r["snp"]}
